@@ -443,7 +443,6 @@ def runaway(ctx, case):
 
 # ---- stream A -------------------------------------------------------------------------------------------
 def run_scenario(ctx, loop, s, retry, lifetime, mbf, how, stratum):
-    M = ctx.call
     kw = {}
     name_arg = s['prefix']
     if how == 1:
